@@ -425,14 +425,30 @@ package ps
 //@   modifies nothing
 //@   // acceptance implies the pairing equation e(kappa, h^eps) * e(g2inv, h'^eps + nu) = 1 and a non-zero h^eps (C08, C09)
 //@   ensures [pairing] result == nil ==> isunity(fexp(pair2(old(val(sigPoK.κ)), old(val(sigPoK.hε)), old(val(pp.g2Inverse)), g1add(old(val(sigPoK.hPrimeε)), old(val(sigPoK.ν))))))
+//@   // and conversely: a proof whose Schnorr part is in order, whose h^eps is not the neutral element and whose pairing equation
+//@   // holds is accepted
+//@   ensures [complete] old(schnorrOKv(sigPoK.ψ, pp.c, sigPoK.ν, sigPoK.hε, pp.g2, pk.X, sigPoK.κ, pk.Y)) &&
+//@                      g1sub(old(val(pp.c.GenG1)), old(val(pp.c.GenG1))) != old(val(sigPoK.hε)) &&
+//@                      isunity(fexp(pair2(old(val(sigPoK.κ)), old(val(sigPoK.hε)), old(val(pp.g2Inverse)), g1add(old(val(sigPoK.hPrimeε)), old(val(sigPoK.ν)))))) ==> result == nil
 //@
 //@ func proveProofOfKnowledgeOfSignatureIsCorrectlyFormed
 //@   props C08
 //@   requires c != nil && allZr(m) && δ != nil && ν != nil && hε != nil && κ != nil && g2 != nil && X != nil && allG2(Y) && len(m) <= len(Y)
 //@   modifies nothing
+//@   // commitments Gamma = mu*g2 + sum gamma[i]*Y[i], Phi = mu*h^eps; challenge e = H(oracle(...)); responses x[i] = gamma[i] + e*m[i], y = mu + e*delta
+//@   at return:
+//@     assert [commitments] result.Γ == Γ && result.Φ == Φ && val(Γ) == sumG2(vals(Y), vals(γ), g2mul(val(g2), val(μ)), n) && val(Φ) == g1mul(val(hε), val(μ))
+//@     assert [challenge]   val(e) == fhash(pokOracle(val(Γ), val(Φ), val(ν), val(hε), val(g2), val(X), val(κ), vals(Y), len(Y)))
+//@     assert [responses]   same(result.x, x) && result.y == y && val(y) == fadd(val(μ), fmul(val(e), val(δ))) && len(x) == len(m) &&
+//@                          forall k int :: { x[k] } 0 <= k && k < len(m) ==> x[k] != nil && val(x[k]) == fadd(val(γ[k]), fmul(val(e), val(m[k])))
 //@   loop 0: invariant 0 <= i && len(γ) == n && n == len(m) && μ != nil && fresh(γ) && forall k int :: { γ[k] } 0 <= k && k < i ==> γ[k] != nil
-//@   loop 1: invariant 0 <= i && len(γ) == n && n == len(m) && μ != nil && Γ != nil && fresh(Γ) && forall k int :: { γ[k] } 0 <= k && k < n ==> γ[k] != nil
-//@   loop 2: invariant 0 <= i && len(γ) == n && n == len(m) && len(x) == len(m) && μ != nil && e != nil && fresh(x) && fresh(γ) && !sameArray(x, γ) && forall k int :: { γ[k] } 0 <= k && k < n ==> γ[k] != nil
+//@   loop 1: invariant 0 <= i && i <= n && len(γ) == n && n == len(m) && μ != nil && Γ != nil && fresh(Γ) && forall k int :: { γ[k] } 0 <= k && k < n ==> γ[k] != nil
+//@   loop 1: invariant [keys-unchanged] forall k int :: { Y[k] } 0 <= k && k < len(Y) ==> val(Y[k]) == old(val(Y[k]))
+//@   loop 1: invariant [commitment] val(Γ) == sumG2(old(vals(Y)), vals(γ), g2mul(old(val(g2)), val(μ)), i)
+//@   loop 2: invariant 0 <= i && len(γ) == n && n == len(m) && len(x) == len(m) && μ != nil && e != nil && Γ != nil && Φ != nil && fresh(x) && fresh(γ) && !sameArray(x, γ) && forall k int :: { γ[k] } 0 <= k && k < n ==> γ[k] != nil
+//@   loop 2: invariant [kept] val(Γ) == sumG2(old(vals(Y)), vals(γ), g2mul(old(val(g2)), val(μ)), n) && val(Φ) == g1mul(old(val(hε)), val(μ)) &&
+//@                            val(e) == fhash(pokOracle(val(Γ), val(Φ), old(val(ν)), old(val(hε)), old(val(g2)), old(val(X)), old(val(κ)), old(vals(Y)), len(Y)))
+//@   loop 2: invariant [responses] forall k int :: { x[k] } 0 <= k && k < i ==> x[k] != nil && val(x[k]) == fadd(val(γ[k]), fmul(val(e), old(val(m[k]))))
 //@
 //@ // the randomised signature inside a proof of knowledge: kappa = X + sum msg[i]*Y[i] + delta*g2, h^eps, nu = delta*h^eps, h'^eps
 //@ func PoKofSig
@@ -446,21 +462,49 @@ package ps
 //@   loop 0: invariant [keys-unchanged] forall m int :: { pk.Y[m] } 0 <= m && m < len(pk.Y) ==> val(pk.Y[m]) == old(val(pk.Y[m]))
 //@   loop 0: invariant [key-side] val(κ) == sumG2(old(vals(pk.Y)), old(vals(msg)), old(val(pk.X)), i)
 //@
+//@ spec macro pokChallenge(gamma G2, phi G1, nu G1, heps G1, g2 G2, x G2, kappa G2, ys seq[G2], n int) F = fhash(pokOracle(gamma, phi, nu, heps, g2, x, kappa, ys, n))
+//@
+//@ spec macro schnorrOK(q *PoKofSignaturePoCorrectForm, c *math.Curve, nu *math.G1, heps *math.G1, g2 *math.G2, x *math.G2, kappa *math.G2, ys []*math.G2) bool =
+//@     len(q.x) <= len(ys) &&
+//@     sumG2(vals(ys), vals(q.x), g2mul(val(g2), val(q.y)), len(q.x)) ==
+//@       g2add(val(q.Γ), g2mul(g2add(val(kappa), g2sub(g2sub(val(c.GenG2), val(c.GenG2)), val(x))), pokChallenge(val(q.Γ), val(q.Φ), val(nu), val(heps), val(g2), val(x), val(kappa), vals(ys), len(ys)))) &&
+//@     g1mul(val(heps), val(q.y)) == g1add(g1mul(val(nu), pokChallenge(val(q.Γ), val(q.Φ), val(nu), val(heps), val(g2), val(x), val(kappa), vals(ys), len(ys))), val(q.Φ))
+//@
+//@ spec macro schnorrOKv(q PoKofSignaturePoCorrectForm, c *math.Curve, nu *math.G1, heps *math.G1, g2 *math.G2, x *math.G2, kappa *math.G2, ys []*math.G2) bool =
+//@     len(q.x) <= len(ys) &&
+//@     sumG2(vals(ys), vals(q.x), g2mul(val(g2), val(q.y)), len(q.x)) ==
+//@       g2add(val(q.Γ), g2mul(g2add(val(kappa), g2sub(g2sub(val(c.GenG2), val(c.GenG2)), val(x))), pokChallenge(val(q.Γ), val(q.Φ), val(nu), val(heps), val(g2), val(x), val(kappa), vals(ys), len(ys)))) &&
+//@     g1mul(val(heps), val(q.y)) == g1add(g1mul(val(nu), pokChallenge(val(q.Γ), val(q.Φ), val(nu), val(heps), val(g2), val(x), val(kappa), vals(ys), len(ys))), val(q.Φ))
+//@
 //@ func (*PoKofSignaturePoCorrectForm).Verify
-//@   props C09 C10
+//@   props C09 C10 C08
 //@   requires c != nil && c.GenG2 != nil && psiOK(ψ) && ν != nil && hε != nil && g2 != nil && X != nil && κ != nil && allG2(Y)
 //@   modifies nothing
+//@   // accepted exactly when both Schnorr equations hold for the challenge e = H(oracle(...)):
+//@   //   y*g2 + sum x[i]*Y[i] = Gamma + e*(kappa - X)     and     y*h^eps = e*nu + Phi
+//@   ensures [schnorr] (result == nil) == old(schnorrOK(ψ, c, ν, hε, g2, X, κ, Y))
 //@
 //@ func (*PoKofSignaturePoCorrectForm).checkcommitmentForm
-//@   props C09 C10
+//@   props C09 C10 C08
 //@   requires c != nil && c.GenG2 != nil && psiOK(ψ) && e != nil && g2 != nil && X != nil && κ != nil && allG2(Y)
 //@   modifies nothing
-//@   loop 0: invariant 0 <= i && left != nil
+//@   // accepted exactly when y*g2 + sum x[i]*Y[i] = Gamma + e*(kappa - X)
+//@   ensures [form] (result == nil) == (len(ψ.x) <= len(Y) &&
+//@                   sumG2(old(vals(Y)), old(vals(ψ.x)), g2mul(old(val(g2)), old(val(ψ.y))), len(ψ.x)) ==
+//@                   g2add(old(val(ψ.Γ)), g2mul(g2add(old(val(κ)), g2sub(g2sub(old(val(c.GenG2)), old(val(c.GenG2))), old(val(X)))), old(val(e)))))
+//@   loop 0: invariant 0 <= i && left != nil && fresh(left) && i <= len(ψ.x) && len(ψ.x) <= len(Y)
+//@   loop 0: invariant [keys-unchanged] forall m int :: { Y[m] } 0 <= m && m < len(Y) ==> val(Y[m]) == old(val(Y[m]))
+//@   loop 0: invariant [left] val(left) == sumG2(old(vals(Y)), old(vals(ψ.x)), g2mul(old(val(g2)), old(val(ψ.y))), i)
+//@
+// the challenge of the proof of knowledge is a function of the values the oracle absorbs (assumed: it is a hash of their
+// encodings; the counting clause below checks that all of them are absorbed)
+//@ spec func pokOracle(gamma G2, phi G1, nu G1, heps G1, g2 G2, x G2, kappa G2, ys seq[G2], n int) string
 //@
 //@ func randomOracleForPoKofSignature
-//@   props C09 C10
+//@   props C09 C10 C08
 //@   requires Γ != nil && Φ != nil && ν != nil && hε != nil && g2 != nil && X != nil && κ != nil && allG2(Y)
 //@   modifies nothing
+//@   assume-ensures [function-of-inputs] string(result) == pokOracle(old(val(Γ)), old(val(Φ)), old(val(ν)), old(val(hε)), old(val(g2)), old(val(X)), old(val(κ)), old(vals(Y)), len(Y))
 //@   // Fiat-Shamir binding, counting form: the oracle absorbs one encoding per key component and the seven other values
 //@   ghost-var absorbed int
 //@   on-call hash.Write(b):
@@ -511,14 +555,38 @@ package ps
 //@   loop 3: invariant [d]    allG1(ξ.d)
 //@   loop 3: invariant [f]    allG1(ξ.f)
 //@
+//@ spec macro wfChallenge(q *BlindCorrectFormProof, n int, a []*math.G1, b []*math.G1, cm *math.G1, g *math.G1, g0 *math.G1, h *math.G1, u *math.G1) F =
+//@     fhash(blindOracle(n, vals(q.d), vals(q.f), val(q.s), vals(a), vals(b), val(cm), val(g), val(g0), val(h), val(u)))
+//@ // the three families of equations the signer checks on a request:
+//@ //   x[i]*u + y[i]*h = d[i] + e*b[i],   x[i]*g = f[i] + e*a[i],   e*cm + s = z*g0 + sum y[i]*gs[i]
+//@ spec macro wfOK(q *BlindCorrectFormProof, n int, a []*math.G1, b []*math.G1, cm *math.G1, g *math.G1, g0 *math.G1, h *math.G1, u *math.G1, gs []*math.G1) bool =
+//@     len(q.x) == n && len(q.y) == n && len(q.d) == n && len(q.f) == n && len(a) == n && len(b) == n &&
+//@     (forall i int :: { q.x[i] } 0 <= i && i < n ==> g1add(g1mul(val(u), val(q.x[i])), g1mul(val(h), val(q.y[i]))) == g1add(val(q.d[i]), g1mul(val(b[i]), wfChallenge(q, n, a, b, cm, g, g0, h, u)))) &&
+//@     (forall i int :: { q.f[i] } 0 <= i && i < n ==> g1mul(val(g), val(q.x[i])) == g1add(val(q.f[i]), g1mul(val(a[i]), wfChallenge(q, n, a, b, cm, g, g0, h, u)))) &&
+//@     g1add(g1mul(val(cm), wfChallenge(q, n, a, b, cm, g, g0, h, u)), val(q.s)) == sumG1(vals(gs), vals(q.y), g1mul(val(g0), val(q.z)), n)
+//@
+//@ spec macro wfChallengev(q BlindCorrectFormProof, n int, a []*math.G1, b []*math.G1, cm *math.G1, g *math.G1, g0 *math.G1, h *math.G1, u *math.G1) F =
+//@     fhash(blindOracle(n, vals(q.d), vals(q.f), val(q.s), vals(a), vals(b), val(cm), val(g), val(g0), val(h), val(u)))
+//@ // (the same for a proof held by value)
+//@ spec macro wfOKv(q BlindCorrectFormProof, n int, a []*math.G1, b []*math.G1, cm *math.G1, g *math.G1, g0 *math.G1, h *math.G1, u *math.G1, gs []*math.G1) bool =
+//@     len(q.x) == n && len(q.y) == n && len(q.d) == n && len(q.f) == n && len(a) == n && len(b) == n &&
+//@     (forall i int :: { q.x[i] } 0 <= i && i < n ==> g1add(g1mul(val(u), val(q.x[i])), g1mul(val(h), val(q.y[i]))) == g1add(val(q.d[i]), g1mul(val(b[i]), wfChallengev(q, n, a, b, cm, g, g0, h, u)))) &&
+//@     (forall i int :: { q.f[i] } 0 <= i && i < n ==> g1mul(val(g), val(q.x[i])) == g1add(val(q.f[i]), g1mul(val(a[i]), wfChallengev(q, n, a, b, cm, g, g0, h, u)))) &&
+//@     g1add(g1mul(val(cm), wfChallengev(q, n, a, b, cm, g, g0, h, u)), val(q.s)) == sumG1(vals(gs), vals(q.y), g1mul(val(g0), val(q.z)), n)
+//@
 //@ func (*BlindCorrectFormProof).Verify
-//@   props C09 C10
+//@   props C09 C10 C08
 //@   requires c != nil && proofOKp(ξ) && allG1(a) && allG1(b) && cm != nil && g != nil && g0 != nil && h != nil && u != nil && allG1(gs) && 0 <= n && n <= len(gs)
 //@   modifies nothing
 //@   ensures [counts] result == nil ==> len(a) == n && len(b) == n
-//@   loop 0: invariant 0 <= i
-//@   loop 1: invariant 0 <= i
-//@   loop 2: invariant 0 <= i && right != nil
+//@   // a request whose proof satisfies the three families of equations is accepted (completeness; C08)
+//@   ensures [complete] old(wfOK(ξ, n, a, b, cm, g, g0, h, u, gs)) ==> result == nil
+//@   loop 0: invariant 0 <= i && e != nil && val(e) == old(wfChallenge(ξ, n, a, b, cm, g, g0, h, u))
+//@   loop 1: invariant 0 <= i && e != nil && val(e) == old(wfChallenge(ξ, n, a, b, cm, g, g0, h, u))
+//@   loop 2: invariant 0 <= i && i <= n && right != nil && fresh(right) && left != nil && e != nil && val(e) == old(wfChallenge(ξ, n, a, b, cm, g, g0, h, u))
+//@   loop 2: invariant [left] val(left) == g1add(g1mul(old(val(cm)), val(e)), old(val(ξ.s)))
+//@   loop 2: invariant [bases-unchanged] forall k int :: { gs[k] } 0 <= k && k < len(gs) ==> val(gs[k]) == old(val(gs[k]))
+//@   loop 2: invariant [right] val(right) == sumG1(old(vals(gs)), old(vals(ξ.y)), g1mul(old(val(g0)), old(val(ξ.z))), i)
 //@
 // ---- blind signing algebra (C08, single signer): what the signer computes from a request and what unblinding checks --------
 // sumG1(p, s, z, k) = z + sum over i < k of s[i] * p[i]   (sumG2 the same in G2)
@@ -547,6 +615,14 @@ package ps
 //@   requires paramsOKp(pp) && bsOK(σ) && skOK(sk, len(pp.gs))
 //@   modifies nothing
 //@   ensures [signature] result.1 == nil ==> result.0 != nil && result.0.a != nil && result.0.b != nil
+//@   // a request whose proof satisfies the three families of equations, for the completed commitment and the recomputed base, is signed
+//@   at return:
+//@     assert [accepts-well-formed] wfOKv(σ.ξ, len(pp.gs), σ.a, σ.b, cm, pp.g, pp.g0, h, σ.u, pp.gs) ==> result.1 == nil
+//@   // the proof is checked against the completed commitment cm + H(cm)*gs[n-1], the base recomputed from it, and the request's own a, b, u
+//@   on-call (*BlindCorrectFormProof).Verify(q1, c1, n1, a1, b1, cm1, gg, gg0, h1, u1, gs1):
+//@     assert [checked-against] val(cm1) == g1add(val(σ.cm), g1mul(val(pp.gs[len(pp.gs)-1]), fhash(sha256(g1bytes(val(σ.cm)))))) &&
+//@                              val(h1) == requestBase(val(pp.gs[len(pp.gs)-1]), val(σ.cm)) && n1 == len(pp.gs) &&
+//@                              same(a1, σ.a) && same(b1, σ.b) && u1 == σ.u && gg == pp.g && gg0 == pp.g0 && same(gs1, pp.gs) && cm1 == cm && h1 == h
 //@   // a = sum of ys[i] * a[i]; b = x * h + sum of ys[i] * b[i]
 //@   ensures [signed-a] result.1 == nil ==> val(result.0.a) == sumG1(old(vals(σ.a)), old(vals(sk.ys)), g1sub(old(val(pp.c.GenG1)), old(val(pp.c.GenG1))), len(pp.gs))
 //@   ensures [signed-b] result.1 == nil ==> val(result.0.b) == sumG1(old(vals(σ.b)), old(vals(sk.ys)), g1mul(requestBase(old(val(pp.gs[len(pp.gs)-1])), old(val(σ.cm))), old(val(sk.x))), len(pp.gs))
@@ -557,11 +633,15 @@ package ps
 //@   loop 1: invariant [kept-a] val(a) == sumG1(old(vals(σ.a)), old(vals(sk.ys)), g1sub(old(val(pp.c.GenG1)), old(val(pp.c.GenG1))), len(pp.gs))
 //@   loop 1: invariant [partial-b] val(b) == sumG1(old(vals(σ.b)), old(vals(sk.ys)), g1mul(requestBase(old(val(pp.gs[len(pp.gs)-1])), old(val(σ.cm))), old(val(sk.x))), i)
 //@
+// the challenge of the request's well-formedness proof is a function of the values the oracle absorbs (assumed, as for pokOracle)
+//@ spec func blindOracle(n int, d seq[G1], f seq[G1], s G1, a seq[G1], b seq[G1], cm G1, g G1, g0 G1, h G1, u G1) string
+//@
 //@ func randomOracleForBlindingProof
-//@   props C09 C10
+//@   props C09 C10 C08
 //@   requires 0 <= n && n <= len(d) && n <= len(f) && n <= len(a) && n <= len(b) && n <= len(gs) && allG1(d) && allG1(f) && allG1(a) && allG1(b) && allG1(gs) &&
 //@            s != nil && cm != nil && g != nil && g0 != nil && h != nil && u != nil
 //@   modifies nothing
+//@   assume-ensures [function-of-inputs] string(result) == blindOracle(n, old(vals(d)), old(vals(f)), old(val(s)), old(vals(a)), old(vals(b)), old(val(cm)), old(val(g)), old(val(g0)), old(val(h)), old(val(u)))
 //@   // Fiat-Shamir binding, counting form: four encodings per message component (d, f, a, b) and the six other values are
 //@   // absorbed (the public bases gs are encoded but not absorbed: they are fixed public parameters)
 //@   ghost-var absorbed int
@@ -585,21 +665,47 @@ package ps
 //@   requires c != nil && allZr(m) && allZr(r) && len(r) == len(m) && allG1(a) && allG1(b) && len(a) == len(m) && len(b) == len(m) && rcm != nil &&
 //@            g != nil && g0 != nil && h != nil && u != nil && cm != nil && allG1(gs) && len(m) <= len(gs)
 //@   modifies nothing
+//@   // commitments d[i] = beta[i]*h + alpha[i]*u, f[i] = alpha[i]*g, s = gamma*g0 + sum beta[i]*gs[i]; challenge e = H(oracle(...));
+//@   // responses x[i] = alpha[i] + e*r[i], y[i] = beta[i] + e*m[i], z = gamma + e*rcm
+//@   at return:
+//@     assert [commitments] same(result.d, d) && same(result.f, f) && result.s == s && len(d) == n && len(f) == n && n == len(m) &&
+//@                          val(s) == sumG1(vals(gs), vals(β), g1mul(val(g0), val(γ)), n) &&
+//@                          forall k int :: { d[k] } { f[k] } 0 <= k && k < n ==> d[k] != nil && f[k] != nil &&
+//@                              val(d[k]) == g1add(g1mul(val(h), val(β[k])), g1mul(val(u), val(α[k]))) && val(f[k]) == g1mul(val(g), val(α[k]))
+//@     assert [challenge]   val(e) == fhash(blindOracle(n, vals(d), vals(f), val(s), vals(a), vals(b), val(cm), val(g), val(g0), val(h), val(u)))
+//@     assert [responses]   same(result.x, x) && same(result.y, y) && result.z == z && len(x) == n && len(y) == n && val(z) == fadd(val(γ), fmul(val(e), val(rcm))) &&
+//@                          forall k int :: { x[k] } { y[k] } 0 <= k && k < n ==> x[k] != nil && y[k] != nil &&
+//@                              val(x[k]) == fadd(val(α[k]), fmul(val(e), val(r[k]))) && val(y[k]) == fadd(val(β[k]), fmul(val(e), val(m[k])))
 //@   loop 0: invariant 0 <= i && n == len(m) && len(α) == n && fresh(α) && forall k int :: { α[k] } 0 <= k && k < i ==> α[k] != nil
 //@   loop 1: invariant 0 <= i && n == len(m) && len(α) == n && len(β) == n && fresh(α) && fresh(β) && !sameArray(α, β) && (forall k int :: { α[k] } 0 <= k && k < n ==> α[k] != nil) &&
 //@                     forall k int :: { β[k] } 0 <= k && k < i ==> β[k] != nil
-//@   loop 2: invariant 0 <= i && n == len(m) && len(α) == n && len(β) == n && len(d) == n && len(f) == n && fresh(d) && fresh(f) && !sameArray(d, f) && s != nil && fresh(s) && γ != nil &&
+//@   loop 2: invariant 0 <= i && i <= n && n == len(m) && len(α) == n && len(β) == n && len(d) == n && len(f) == n && fresh(d) && fresh(f) && !sameArray(d, f) && s != nil && fresh(s) && γ != nil &&
 //@                     (forall k int :: { α[k] } 0 <= k && k < n ==> α[k] != nil) && (forall k int :: { β[k] } 0 <= k && k < n ==> β[k] != nil) &&
 //@                     forall k int :: { d[k] } { f[k] } 0 <= k && k < i ==> d[k] != nil && f[k] != nil
-//@   loop 3: invariant 0 <= i && n == len(m) && len(α) == n && len(β) == n && len(x) == n && len(y) == n && fresh(x) && fresh(y) && e != nil &&
-//@                     (forall k int :: { α[k] } 0 <= k && k < n ==> α[k] != nil) && (forall k int :: { β[k] } 0 <= k && k < n ==> β[k] != nil)
+//@   loop 2: invariant [bases-unchanged] (forall k int :: { gs[k] } 0 <= k && k < len(gs) ==> val(gs[k]) == old(val(gs[k]))) && val(h) == old(val(h)) && val(u) == old(val(u)) && val(g) == old(val(g)) && val(g0) == old(val(g0))
+//@   loop 2: invariant [distinct] allocated(s) && forall k int :: { d[k] } { f[k] } 0 <= k && k < i ==> d[k] != s && f[k] != s && allocated(d[k]) && allocated(f[k])
+//@   loop 2: invariant [s] val(s) == sumG1(old(vals(gs)), vals(β), g1mul(old(val(g0)), val(γ)), i)
+//@   loop 2: invariant [df] forall k int :: { d[k] } { f[k] } 0 <= k && k < i ==> val(d[k]) == g1add(g1mul(old(val(h)), val(β[k])), g1mul(old(val(u)), val(α[k]))) && val(f[k]) == g1mul(old(val(g)), val(α[k]))
+//@   loop 3: invariant 0 <= i && n == len(m) && len(α) == n && len(β) == n && len(x) == n && len(y) == n && len(d) == n && len(f) == n && fresh(x) && fresh(y) && !sameArray(x, y) && e != nil && z != nil && s != nil && γ != nil &&
+//@                     (forall k int :: { α[k] } 0 <= k && k < n ==> α[k] != nil) && (forall k int :: { β[k] } 0 <= k && k < n ==> β[k] != nil) &&
+//@                     (forall k int :: { d[k] } { f[k] } 0 <= k && k < n ==> d[k] != nil && f[k] != nil)
+//@   loop 3: invariant [kept] val(s) == sumG1(old(vals(gs)), vals(β), g1mul(old(val(g0)), val(γ)), n) &&
+//@                            (forall k int :: { d[k] } { f[k] } 0 <= k && k < n ==> val(d[k]) == g1add(g1mul(old(val(h)), val(β[k])), g1mul(old(val(u)), val(α[k]))) && val(f[k]) == g1mul(old(val(g)), val(α[k]))) &&
+//@                            val(e) == fhash(blindOracle(n, vals(d), vals(f), val(s), old(vals(a)), old(vals(b)), old(val(cm)), old(val(g)), old(val(g0)), old(val(h)), old(val(u)))) &&
+//@                            val(z) == fadd(val(γ), fmul(val(e), old(val(rcm))))
+//@   loop 3: invariant [xy] forall k int :: { x[k] } { y[k] } 0 <= k && k < i ==> x[k] != nil && y[k] != nil &&
+//@                              val(x[k]) == fadd(val(α[k]), fmul(val(e), old(val(r[k])))) && val(y[k]) == fadd(val(β[k]), fmul(val(e), old(val(m[k]))))
 //@
 //@ func commit
 //@   props C08
 //@   requires paramsOKp(pp) && rcm != nil && allZr(m) && len(m) <= len(pp.gs)
 //@   modifies nothing
 //@   ensures result != nil && fresh(result)
-//@   loop 0: invariant 0 <= i && cm != nil && fresh(cm)
+//@   // cm = rcm*g0 + sum m[i]*gs[i]
+//@   ensures [commitment] val(result) == sumG1(old(vals(pp.gs)), old(vals(m)), g1mul(old(val(pp.g0)), old(val(rcm))), len(m))
+//@   loop 0: invariant 0 <= i && i <= len(m) && cm != nil && fresh(cm)
+//@   loop 0: invariant [bases-unchanged] forall k int :: { pp.gs[k] } 0 <= k && k < len(pp.gs) ==> val(pp.gs[k]) == old(val(pp.gs[k]))
+//@   loop 0: invariant [partial] val(cm) == sumG1(old(vals(pp.gs)), old(vals(m)), g1mul(old(val(pp.g0)), old(val(rcm))), i)
 //@
 //@ func Blind
 //@   props C08
@@ -608,6 +714,13 @@ package ps
 //@     assert [ephemeral-key] uu == u && val(uu) == g1mul(val(pp.g), val(z))
 //@     assert [base]          hh == h && val(hh) == requestBase(val(pp.gs[len(pp.gs)-1]), val(oldCM))
 //@     assert [message]       same(mm, msg)
+//@   // the well-formedness proof is about exactly this request: the encrypted message, encrypt's randomness and ciphertext, the
+//@   // commitment randomness, and the completed commitment cm = (rcm*g0 + sum m[i]*gs[i]) + mPrime*gs[n-1] with mPrime = H(that sum)
+//@   on-call proveBlindingIsWellFormed(c2, m2, r2, a2, b2, rcm2, gg, gg0, h2, u2, cm2, gs2):
+//@     assert [proved-about] same(m2, msg) && same(a2, a) && same(b2, b) && same(r2, r) && rcm2 == rcm && h2 == h && u2 == u && cm2 == cm && gg == pp.g && gg0 == pp.g0 && same(gs2, pp.gs)
+//@     assert [commitment]   val(cm) == g1add(val(oldCM), g1mul(val(pp.gs[len(pp.gs)-1]), val(mPrime))) && val(mPrime) == fhash(sha256(g1bytes(val(oldCM)))) &&
+//@                           val(oldCM) == sumG1(vals(pp.gs), vals(m), g1mul(val(pp.g0), val(rcm)), len(m)) &&
+//@                           len(msg) == len(m) + 1 && msg[len(msg)-1] == mPrime && forall k int :: { msg[k] } 0 <= k && k < len(m) ==> msg[k] == m[k]
 //@   at return:
 //@     assert [request] result.0.u == u && same(result.0.a, a) && same(result.0.b, b) && result.0.cm == oldCM && result.1.h == h && result.1.z == z && same(result.1.msg, msg)
 //@
